@@ -141,3 +141,42 @@ Definition multi_ok (c : mcase) : bool :=
   list_eqb (list_eqb (fun a b => Nat.eqb (fst a) (fst b) && list_eqb pair_eqb (snd a) (snd b)))
            (Multi.drain (S (length files)) files 0 batch) impl.
 Definition multi_results (cs : list mcase) : list nat := mism_from (fun c => negb (multi_ok c)) 0 cs.
+
+(* ---------- the key-grouped index of the attached flush (Grouped.v) ----------
+   per case: the index rows (key groups) as the real sortRecord produced them, segments per group and segment offsets (the
+   two halves of __fragment__), the condition, reader settings; implementation: NewKeyCondition error, Scan (fragment ranges),
+   getSegmentRanges. Result per case: mismatch mask under the reading "null = -infinity" (repaired), mask under the reading
+   "null = pad value" (the reading a93f46a applies to every index), groups covered under the first reading.
+   mask bits: 1 fragment ranges, 2 segment ranges, 4 the index rows are not in KeySorter order, 8 condition error,
+   16 the segment offsets are not the prefix sums of the segment counts. *)
+From OG Require C20.Grouped.
+Record gcase := mkG {
+  g_isint : list bool; g_pads : list Z; g_idx : list key; g_cnts : list nat; g_offs : list nat; g_cond : cond;
+  g_coarse : nat; g_minmarks : nat;
+  g_conderr : bool; g_scan : nat; g_ranges : list (nat * nat); g_segranges : list (nat * nat) }.
+
+Definition g_mask (c : gcase) (rpn : list elem) (idx : list key) : nat * list bool :=
+  let sc := Grouped.scan_g (g_isint c) rpn idx (g_coarse c) (g_minmarks c) in
+  let b1 := match sc, g_scan c with
+            | ScanErr, 1 => 0
+            | ScanOk rs, 0 => if list_eqb pair_eqb rs (g_ranges c) then 0 else 1
+            | _, _ => 1 end in
+  let b2 := match sc with
+            | ScanOk rs => if list_eqb pair_eqb (Grouped.seg_ranges (g_cnts c) rs) (g_segranges c) then 0 else 2
+            | ScanErr => 0 end in
+  let cover := match sc with ScanOk rs => map (fun f => covered f rs) (seq 0 (length idx)) | ScanErr => [] end in
+  (b1 + b2, cover).
+
+Definition g_eval (c : gcase) : nat * nat * list bool :=
+  let b4 := if Grouped.ks_sortedb (g_idx c) then 0 else 4 in
+  let b16 := if list_eqb Nat.eqb (g_offs c) (map (fun i => ScanProofs.sum (firstn i (g_cnts c))) (seq 0 (length (g_cnts c)))) then 0 else 16 in
+  match compile (g_isint c) (g_cond c) with
+  | None => ((if g_conderr c then 0 else 8) + b4 + b16, (if g_conderr c then 0 else 8) + b4 + b16, [])
+  | Some rpn =>
+      if g_conderr c then (8 + b4 + b16, 8 + b4 + b16, [])
+      else
+        let '(m1, cov) := g_mask c rpn (g_idx c) in
+        let '(m2, _) := g_mask c rpn (map (NullOrder.padk (g_pads c)) (g_idx c)) in
+        (m1 + b4 + b16, m2 + b4 + b16, cov)
+  end.
+Definition grouped_results (cs : list gcase) : list (nat * nat * list bool) := map g_eval cs.
